@@ -400,8 +400,9 @@ def flatten_protocol(idx, rep):
                    f"writer iterates `{it}` unsorted: the tree structure depends on attribute assignment order", detail="" if it.startswith("sorted(") else "unsorted", locs=[loc_f])
         branch = next((n for n in loop.body if isinstance(n, ast.If)), None)
         if branch is not None:
-            test = ast.unparse(branch.test)
-            for label, body in (("dynamic", branch.body), ("static", branch.orelse)):
+            ntest, pol = df.normalise_test(branch.test)
+            test = ast.unparse(ntest)
+            for label, body in (("dynamic", branch.body if pol else branch.orelse), ("static", branch.orelse if pol else branch.body)):
                 apps = [c for st in body for c in ast.walk(st) if isinstance(c, ast.Call) and isinstance(c.func, ast.Attribute) and c.func.attr == "append"]
                 writer[label] = {ast.unparse(c.func.value): c.args[0] for c in apps if c.args}
             rep.decide(True if "_dynamic[" in test else None, "flatten-protocol", "tree_flatten:split", f"children/static split decided by `{test}`", locs=[loc_f])
@@ -428,10 +429,12 @@ def flatten_protocol(idx, rep):
     test_len = None
     read_idx = None
     for n in df.body_nodes(tu.node):
-        if isinstance(n, ast.If) and isinstance(n.test, ast.Compare) and "len(" in ast.unparse(n.test.left) and isinstance(n.test.comparators[0], ast.Constant):
-            test_len = n.test.comparators[0].value
-            child_branch = any("next(" in ast.unparse(x) for st in n.body for x in ast.walk(st) if isinstance(x, ast.Call))
-            for st in n.orelse:
+        ntest, pol = df.normalise_test(n.test) if isinstance(n, ast.If) else (None, True)
+        if isinstance(n, ast.If) and isinstance(ntest, ast.Compare) and isinstance(ntest.ops[0], ast.Eq) and "len(" in ast.unparse(ntest.left) and isinstance(ntest.comparators[0], ast.Constant):
+            test_len = ntest.comparators[0].value
+            eq_body, other_body = (n.body, n.orelse) if pol else (n.orelse, n.body)
+            child_branch = any("next(" in ast.unparse(x) for st in eq_body for x in ast.walk(st) if isinstance(x, ast.Call))
+            for st in other_body:
                 for x in ast.walk(st):
                     if isinstance(x, ast.Subscript) and isinstance(x.slice, ast.Constant) and isinstance(x.ctx, ast.Load) and x.slice.value != 0:
                         read_idx = x.slice.value
